@@ -4,10 +4,10 @@ CONSTANTS NS = 1
   Hosts <- H3
   InitAt <- At1_3
   MovePorts <- Mv1
-  Dsts <- DAll1
+  Dsts <- DQuick
   Shapes <- ShAL
   Gaps <- G2
-  Sweeps <- BB
+  Sweeps <- BT
   Caches <- BT
   DropInPort = TRUE
   IdleTO = 10
